@@ -1270,6 +1270,7 @@ fn check_matching_pattern(
         );
       };
       let mut not_mentioned_fields = BTreeSet::new();
+      let mut mentioned_fields = HashMap::new();
       let mut field_order_mapping = HashMap::new();
       let mut field_mappings = HashMap::new();
       let mut abstract_pattern_nodes = Vec::with_capacity(fields.len());
@@ -1298,6 +1299,14 @@ fn check_matching_pattern(
             );
           }
           not_mentioned_fields.remove(&field_name.name);
+          if let Some(previous_loc) = mentioned_fields.insert(field_name.name, field_name.loc) {
+            // Only the last sub-pattern of a field would reach the exhaustiveness analysis.
+            cx.error_set.report_name_already_bound_error(
+              field_name.loc,
+              field_name.name,
+              previous_loc,
+            );
+          }
           let (checked, abstract_node) =
             check_matching_pattern(cx, pattern, wildcard_on_bad_pattern, field_type);
           let field_order = field_order_mapping.get(&field_name.name).unwrap();
